@@ -14,6 +14,8 @@ From MP Require Import Model.Evaluate.
 From MP Require Import Spec.Recommend.
 From MP Require Import Proofs.C19_Nodes.
 From MP Require Import Proofs.C19_Main.
+From MP Require Import Proofs.C19_Shape.
+From MP Require Import Proofs.C19_Shipped.
 
 (** ** table obligations over the generated tables (re-run against the working tree) *)
 
@@ -70,11 +72,7 @@ Print Assumptions C19_exact_generic.
 Theorem C19_total : forall parent t ws, exists new,
   eval_tree eval_dispatch warn_codes parent t ws = EOk (ws ++ new) /\
   Forall (fun w => In (fst w) warn_codes) new.
-Proof.
-  apply total_generic.
-  - pose proof C19_table_dispatch as H. apply andb_true_iff in H as [H _]. exact H.
-  - exact C19_table_codes.
-Qed.
+Proof. exact total_shipped. Qed.
 Print Assumptions C19_total.
 
 (** Exact: on a tree whose single-valued children are single (what validation guarantees:
@@ -82,31 +80,59 @@ Print Assumptions C19_total.
     recommendation table, element by element in document order. *)
 Theorem C19_exact : forall parent t ws, shape_ok t = true ->
   eval_tree eval_dispatch warn_codes parent t ws = EOk (ws ++ expected_at parent t).
-Proof.
-  apply exact_generic.
-  - pose proof C19_table_dispatch as H. apply andb_true_iff in H as [H _]. exact H.
-  - exact C19_table_codes.
-  - exact C19_table_canonical.
-Qed.
+Proof. exact exact_shipped. Qed.
 Print Assumptions C19_exact.
 
 Theorem C19_exact_root : forall t ws, shape_ok t = true ->
   eval_tree eval_dispatch warn_codes None t ws = EOk (ws ++ expected t).
-Proof. intros t ws. exact (C19_exact None t ws). Qed.
+Proof. exact exact_root_shipped. Qed.
 Print Assumptions C19_exact_root.
+
+(** ** from validation to the hypothesis
+
+    Table obligation: in the generated rule table the single-valued children ARE single-valued
+    ([ub_child e c]: the largest number of [c] children in any word of the language of [e]'s
+    rule, computed from rules.json as parsed by Model/Rule.v). *)
+Theorem C19_table_singletons :
+  ub_child "dataset" "abstract" = Some 1 /\ ub_child "dataset" "coverage" = Some 1 /\
+  ub_child "dataset" "intellectualRights" = Some 1 /\
+  ub_child "physical" "size" = Some 1 /\ ub_child "physical" "dataFormat" = Some 1.
+Proof. exact table_singletons. Qed.
+Print Assumptions C19_table_singletons.
+
+(** [lang_ok t]: for every element of [t] that has a rule, its children sequence is a word of
+    the rule's language (Spec/Lang.v — what C01 proves child validation accepts), and every
+    authentication / recordDelimiter element carries text (content rule nonEmptyContent, C02).
+    Then the hypothesis of C19_exact holds ... *)
+Theorem C19_shape_from_validation : forall t, lang_ok t -> shape_ok t = true.
+Proof. exact lang_shape. Qed.
+Print Assumptions C19_shape_from_validation.
+
+(** ... and the warnings are exactly the recommended ones. *)
+Theorem C19_exact_validated : forall t ws, lang_ok t ->
+  eval_tree eval_dispatch warn_codes None t ws = EOk (ws ++ expected t).
+Proof. exact exact_lang_shipped. Qed.
+Print Assumptions C19_exact_validated.
+
+(** The full statement of the property for a notion [valid] of "passes validation"; it is
+    proved from the one link [valid t -> shape_ok t = true] (by the theorem above it suffices
+    that [valid t -> lang_ok t], which is the content of C01 + C02 + C05 for validate.tree).
+    That link is checked by the harness on generated valid trees, not proved here. *)
+Definition C19_full_statement (valid : ftree -> Prop) : Prop :=
+  forall t ws, valid t ->
+    eval_tree eval_dispatch warn_codes None t ws = EOk (ws ++ expected t).
+
+Theorem C19_exact_partial : forall valid : ftree -> Prop,
+  (forall t, valid t -> shape_ok t = true) -> C19_full_statement valid.
+Proof. exact full_from_shape. Qed.
+Print Assumptions C19_exact_partial.
 
 (** evaluate.node on one node: total, only member codes, and the unmet rows of that element. *)
 Theorem C19_node : forall parent t, exists ev,
   eval_node eval_dispatch warn_codes parent t = NOk ev /\
   Forall (fun c => In c warn_codes) (codes_of ev) /\
   (shape_ok t = true -> codes_of ev = unmet parent t).
-Proof.
-  intros parent t.
-  destruct (node_generic eval_dispatch warn_codes) with (parent := parent) (t := t) as (ev & E & F & X).
-  - pose proof C19_table_dispatch as H. apply andb_true_iff in H as [H _]. exact H.
-  - exact C19_table_codes.
-  - exists ev. split; [exact E|]. split; [exact F|]. intro SH. exact (X C19_table_canonical SH).
-Qed.
+Proof. exact node_shipped. Qed.
 Print Assumptions C19_node.
 
 (** ** non-vacuity *)
